@@ -214,3 +214,8 @@ pub fn harness<T>(f: impl FnOnce() -> T) -> Result<T, String> {
 pub fn hash_str(s: &str) -> u64 {
     oracle::fnv(s.as_bytes())
 }
+
+/// message of the last panic seen on this thread (for harness failures)
+pub fn take_last_panic() -> String {
+    LAST_PANIC.with(|p| p.borrow_mut().take()).unwrap_or_else(|| "<no message>".into())
+}
